@@ -1204,8 +1204,15 @@ void define_macro(char *name, char *buf) {
   read_macro_definition(&tok, tok);
 }
 
+// The name is lexed like the name of #undef, so that -U removes what
+// -D (or #define) entered under the same spelling.
 void undef_macro(char *name) {
-  hashmap_delete(&macros, name);
+  char *buf = format("%s\n", name);
+  convert_universal_chars(buf);
+  Token *tok = tokenize(new_file("<built-in>", 1, buf));
+  if (tok->kind != TK_IDENT)
+    error_tok(tok, "macro name must be an identifier");
+  hashmap_delete2(&macros, tok->loc, tok->len);
 }
 
 static Macro *add_builtin(char *name, macro_handler_fn *fn) {
